@@ -125,6 +125,8 @@ def blockcfg_rule(ctx):
 
 
 def run(ctx):
+    from .c16 import complete_write_rules
+    complete_write_rules(ctx)
     f = ctx.f
     blockcfg_rule(ctx)
     enc = with_helpers(fn_by_label(f, ENC))
